@@ -33,68 +33,80 @@ mod opt_cols__src1;
 mod cartesian__par;
 mod same_gen__perm2;
 mod not_reorderable__pari;
-mod two_inputs__gen;
-mod two_inputs__srcpar;
-mod wild__ser;
-mod ternary__ren;
-mod bound_mix__perm1;
-mod join_chain__par;
-mod join_chain__strpar;
-mod reach__topar;
-mod lag_right__par;
-mod lag_right__str;
-mod lag_three__ser;
-mod lag_mid__perm1;
-mod lag_late_delta__par;
-mod multi_head_rec__topar;
-mod sp_dual__run;
-mod sp_dual__init;
-mod sp_weighted__par;
-mod longest_capped__topar;
-mod set_reach__gen;
-mod set_reach__srcpar;
-mod cp__pari;
-mod lex_lat__pari;
-mod lat_multi_improve__par;
-mod lat_input__par;
-mod lat_input__src1;
-mod count_paths__par;
-mod count_paths__src1;
-mod neg_basic__par;
-mod neg_basic__src1;
-mod neg_basic__perm2;
-mod agg_depth__ser;
-mod agg_lattice__to;
-mod neg_rec_after__exp;
-mod agg_empty__to;
-mod agg_const_args__par;
-mod disj__topar;
-mod disj__redecl;
-mod disj__exp;
-mod pat_args__par;
-mod rep_expr__exppar;
-mod neg_in_disj__pari;
-mod mac_basic__run;
-mod mac_basic__init;
-mod mac_capture__exp;
-mod mac_gensym_disj__par;
-mod mac_disj__exppar;
-mod rnd_core_03__par;
-mod rnd_core_06__ser;
-mod rnd_core_08__pari;
-mod rnd_core_11__par;
-mod rnd_core_14__ser;
-mod rnd_core_16__pari;
-mod rnd_core_19__par;
-mod rnd_core_22__ser;
-mod rnd_core_24__pari;
-mod rnd_core_27__par;
-mod rnd_core_30__ser;
-mod rnd_agg_02__pari;
-mod rnd_agg_05__par;
-mod rnd_agg_08__ser;
-mod rnd_agg_10__pari;
-mod rnd_agg_13__par;
+mod pre_join_rec__par;
+mod two_inputs__ser;
+mod two_inputs__src0;
+mod two_inputs__perm1;
+mod wild__par;
+mod ternary__permpar;
+mod bound_mix__perm2;
+mod join_chain__pari;
+mod cond_simple_join__ser;
+mod zero_arity__ser;
+mod lag_right__pari;
+mod lag_right__u64;
+mod lag_three__par;
+mod lag_mid__perm2;
+mod lag_late_delta__pari;
+mod multi_head_rec__exp;
+mod sp_dual__mrt;
+mod sp_dual__runpar;
+mod sp_weighted__pari;
+mod set_reach__ser;
+mod set_reach__src0;
+mod bset__ser;
+mod cp__to;
+mod bool_lat__ser;
+mod lat_multi_improve__pari;
+mod lat_count_all__ser;
+mod lat_input__pari;
+mod lat_input__src2;
+mod count_paths__pari;
+mod count_paths__src2;
+mod neg_basic__pari;
+mod neg_basic__src2;
+mod neg_basic__ren;
+mod agg_depth__par;
+mod agg_lattice__topar;
+mod neg_rec_after__exppar;
+mod agg_empty__topar;
+mod agg_const_args__pari;
+mod disj__pari;
+mod disj__src2;
+mod disj__ren;
+mod disj_nested__exppar;
+mod rep_expr__pari;
+mod neg_in_disj__ser;
+mod mac_basic__to;
+mod mac_basic__srcto;
+mod mac_capture__par;
+mod mac_nested__exppar;
+mod mac_disj__pari;
+mod rnd_core_02__pari;
+mod rnd_core_05__par;
+mod rnd_core_08__ser;
+mod rnd_core_10__pari;
+mod rnd_core_13__par;
+mod rnd_core_16__ser;
+mod rnd_core_18__pari;
+mod rnd_core_21__par;
+mod rnd_core_24__ser;
+mod rnd_core_26__pari;
+mod rnd_core_29__par;
+mod rnd_agg_02__ser;
+mod rnd_agg_04__pari;
+mod rnd_agg_07__par;
+mod rnd_agg_10__ser;
+mod rnd_agg_12__pari;
+mod rnd_agg_15__par;
+mod rnd_prec_02__par;
+mod rnd_prec_03__topar;
+mod rnd_prec_05__pari;
+mod rnd_prec_07__ser;
+mod rnd_prec_08__to;
+mod rnd_prea_03__ser;
+mod rnd_prea_05__pari;
+mod rnd_prea_08__par;
 
 fn lookup(name: &str) -> fn() -> Box<dyn Driven> {
    match name {
@@ -123,68 +135,80 @@ fn lookup(name: &str) -> fn() -> Box<dyn Driven> {
       "cartesian__par" => cartesian__par::make,
       "same_gen__perm2" => same_gen__perm2::make,
       "not_reorderable__pari" => not_reorderable__pari::make,
-      "two_inputs__gen" => two_inputs__gen::make,
-      "two_inputs__srcpar" => two_inputs__srcpar::make,
-      "wild__ser" => wild__ser::make,
-      "ternary__ren" => ternary__ren::make,
-      "bound_mix__perm1" => bound_mix__perm1::make,
-      "join_chain__par" => join_chain__par::make,
-      "join_chain__strpar" => join_chain__strpar::make,
-      "reach__topar" => reach__topar::make,
-      "lag_right__par" => lag_right__par::make,
-      "lag_right__str" => lag_right__str::make,
-      "lag_three__ser" => lag_three__ser::make,
-      "lag_mid__perm1" => lag_mid__perm1::make,
-      "lag_late_delta__par" => lag_late_delta__par::make,
-      "multi_head_rec__topar" => multi_head_rec__topar::make,
-      "sp_dual__run" => sp_dual__run::make,
-      "sp_dual__init" => sp_dual__init::make,
-      "sp_weighted__par" => sp_weighted__par::make,
-      "longest_capped__topar" => longest_capped__topar::make,
-      "set_reach__gen" => set_reach__gen::make,
-      "set_reach__srcpar" => set_reach__srcpar::make,
-      "cp__pari" => cp__pari::make,
-      "lex_lat__pari" => lex_lat__pari::make,
-      "lat_multi_improve__par" => lat_multi_improve__par::make,
-      "lat_input__par" => lat_input__par::make,
-      "lat_input__src1" => lat_input__src1::make,
-      "count_paths__par" => count_paths__par::make,
-      "count_paths__src1" => count_paths__src1::make,
-      "neg_basic__par" => neg_basic__par::make,
-      "neg_basic__src1" => neg_basic__src1::make,
-      "neg_basic__perm2" => neg_basic__perm2::make,
-      "agg_depth__ser" => agg_depth__ser::make,
-      "agg_lattice__to" => agg_lattice__to::make,
-      "neg_rec_after__exp" => neg_rec_after__exp::make,
-      "agg_empty__to" => agg_empty__to::make,
-      "agg_const_args__par" => agg_const_args__par::make,
-      "disj__topar" => disj__topar::make,
-      "disj__redecl" => disj__redecl::make,
-      "disj__exp" => disj__exp::make,
-      "pat_args__par" => pat_args__par::make,
-      "rep_expr__exppar" => rep_expr__exppar::make,
-      "neg_in_disj__pari" => neg_in_disj__pari::make,
-      "mac_basic__run" => mac_basic__run::make,
-      "mac_basic__init" => mac_basic__init::make,
-      "mac_capture__exp" => mac_capture__exp::make,
-      "mac_gensym_disj__par" => mac_gensym_disj__par::make,
-      "mac_disj__exppar" => mac_disj__exppar::make,
-      "rnd_core_03__par" => rnd_core_03__par::make,
-      "rnd_core_06__ser" => rnd_core_06__ser::make,
-      "rnd_core_08__pari" => rnd_core_08__pari::make,
-      "rnd_core_11__par" => rnd_core_11__par::make,
-      "rnd_core_14__ser" => rnd_core_14__ser::make,
-      "rnd_core_16__pari" => rnd_core_16__pari::make,
-      "rnd_core_19__par" => rnd_core_19__par::make,
-      "rnd_core_22__ser" => rnd_core_22__ser::make,
-      "rnd_core_24__pari" => rnd_core_24__pari::make,
-      "rnd_core_27__par" => rnd_core_27__par::make,
-      "rnd_core_30__ser" => rnd_core_30__ser::make,
-      "rnd_agg_02__pari" => rnd_agg_02__pari::make,
-      "rnd_agg_05__par" => rnd_agg_05__par::make,
-      "rnd_agg_08__ser" => rnd_agg_08__ser::make,
-      "rnd_agg_10__pari" => rnd_agg_10__pari::make,
-      "rnd_agg_13__par" => rnd_agg_13__par::make,
+      "pre_join_rec__par" => pre_join_rec__par::make,
+      "two_inputs__ser" => two_inputs__ser::make,
+      "two_inputs__src0" => two_inputs__src0::make,
+      "two_inputs__perm1" => two_inputs__perm1::make,
+      "wild__par" => wild__par::make,
+      "ternary__permpar" => ternary__permpar::make,
+      "bound_mix__perm2" => bound_mix__perm2::make,
+      "join_chain__pari" => join_chain__pari::make,
+      "cond_simple_join__ser" => cond_simple_join__ser::make,
+      "zero_arity__ser" => zero_arity__ser::make,
+      "lag_right__pari" => lag_right__pari::make,
+      "lag_right__u64" => lag_right__u64::make,
+      "lag_three__par" => lag_three__par::make,
+      "lag_mid__perm2" => lag_mid__perm2::make,
+      "lag_late_delta__pari" => lag_late_delta__pari::make,
+      "multi_head_rec__exp" => multi_head_rec__exp::make,
+      "sp_dual__mrt" => sp_dual__mrt::make,
+      "sp_dual__runpar" => sp_dual__runpar::make,
+      "sp_weighted__pari" => sp_weighted__pari::make,
+      "set_reach__ser" => set_reach__ser::make,
+      "set_reach__src0" => set_reach__src0::make,
+      "bset__ser" => bset__ser::make,
+      "cp__to" => cp__to::make,
+      "bool_lat__ser" => bool_lat__ser::make,
+      "lat_multi_improve__pari" => lat_multi_improve__pari::make,
+      "lat_count_all__ser" => lat_count_all__ser::make,
+      "lat_input__pari" => lat_input__pari::make,
+      "lat_input__src2" => lat_input__src2::make,
+      "count_paths__pari" => count_paths__pari::make,
+      "count_paths__src2" => count_paths__src2::make,
+      "neg_basic__pari" => neg_basic__pari::make,
+      "neg_basic__src2" => neg_basic__src2::make,
+      "neg_basic__ren" => neg_basic__ren::make,
+      "agg_depth__par" => agg_depth__par::make,
+      "agg_lattice__topar" => agg_lattice__topar::make,
+      "neg_rec_after__exppar" => neg_rec_after__exppar::make,
+      "agg_empty__topar" => agg_empty__topar::make,
+      "agg_const_args__pari" => agg_const_args__pari::make,
+      "disj__pari" => disj__pari::make,
+      "disj__src2" => disj__src2::make,
+      "disj__ren" => disj__ren::make,
+      "disj_nested__exppar" => disj_nested__exppar::make,
+      "rep_expr__pari" => rep_expr__pari::make,
+      "neg_in_disj__ser" => neg_in_disj__ser::make,
+      "mac_basic__to" => mac_basic__to::make,
+      "mac_basic__srcto" => mac_basic__srcto::make,
+      "mac_capture__par" => mac_capture__par::make,
+      "mac_nested__exppar" => mac_nested__exppar::make,
+      "mac_disj__pari" => mac_disj__pari::make,
+      "rnd_core_02__pari" => rnd_core_02__pari::make,
+      "rnd_core_05__par" => rnd_core_05__par::make,
+      "rnd_core_08__ser" => rnd_core_08__ser::make,
+      "rnd_core_10__pari" => rnd_core_10__pari::make,
+      "rnd_core_13__par" => rnd_core_13__par::make,
+      "rnd_core_16__ser" => rnd_core_16__ser::make,
+      "rnd_core_18__pari" => rnd_core_18__pari::make,
+      "rnd_core_21__par" => rnd_core_21__par::make,
+      "rnd_core_24__ser" => rnd_core_24__ser::make,
+      "rnd_core_26__pari" => rnd_core_26__pari::make,
+      "rnd_core_29__par" => rnd_core_29__par::make,
+      "rnd_agg_02__ser" => rnd_agg_02__ser::make,
+      "rnd_agg_04__pari" => rnd_agg_04__pari::make,
+      "rnd_agg_07__par" => rnd_agg_07__par::make,
+      "rnd_agg_10__ser" => rnd_agg_10__ser::make,
+      "rnd_agg_12__pari" => rnd_agg_12__pari::make,
+      "rnd_agg_15__par" => rnd_agg_15__par::make,
+      "rnd_prec_02__par" => rnd_prec_02__par::make,
+      "rnd_prec_03__topar" => rnd_prec_03__topar::make,
+      "rnd_prec_05__pari" => rnd_prec_05__pari::make,
+      "rnd_prec_07__ser" => rnd_prec_07__ser::make,
+      "rnd_prec_08__to" => rnd_prec_08__to::make,
+      "rnd_prea_03__ser" => rnd_prea_03__ser::make,
+      "rnd_prea_05__pari" => rnd_prea_05__pari::make,
+      "rnd_prea_08__par" => rnd_prea_08__par::make,
       _ => panic!("no such program variant in this shard: {}", name),
    }
 }
